@@ -412,6 +412,14 @@ func universe() []Val {
 	add(Val{Name: "[]Stringer/Formatter panicking with index / slice-bounds runtime errors", Mk: func(v int) interface{} {
 		return []interface{}{idxStrT(4711 + 3375*v), sliceFmtT{4711 + 3375*v}, "tail"}
 	}, Fmt: true, PanicMid: true})
+	add(m("user type with a GetValue() method (not a wrapper)", true, func(v int) interface{} { return getValT{42, secStr[v]} }))
+	add(Val{Name: "user type with GetValue() returning a redactable", Mk: func(v int) interface{} {
+		return getValT{redact.RedactableString("r" + mStart + "x" + mEnd), secPlain[v]}
+	}, Own: true})
+	add(m("[]user types with GetValue()/look-alike methods", true, func(v int) interface{} {
+		return []interface{}{getValT{nil, secStr[v]}, lookalikeT{secPlain[v]}, &getValT{getValT{1, "in"}, secPlain[v]}}
+	}))
+	add(m("user type with look-alike methods (SafeFormat(int), Unwrap, Cause, Redact...)", true, func(v int) interface{} { return lookalikeT{secStr[v]} }))
 	add(m("GoStringer", true, func(v int) interface{} { return goT{secStrLF[v]} }))
 	add(m("Formatter", true, func(v int) interface{} { return fmtT{secStrLF[v]} }))
 	add(m("Formatter via io.WriteString", true, func(v int) interface{} { return fmtWST{secStrLF[v]} }))
@@ -588,6 +596,27 @@ func fmtUniverse() []Val {
 }
 
 func nan() float64 { return math.NaN() }
+
+// getValT: a user type that happens to have the accessor the Safe/Unsafe wrappers have; it is NOT a wrapper
+type getValT struct {
+	inner interface{}
+	s     string
+}
+
+func (g getValT) GetValue() interface{} { return g.inner }
+func (g getValT) String() string        { return "setting(" + g.s + ")" }
+
+// lookalikeT: methods with the NAMES the library dispatches on but other signatures, plus Unwrap/Cause/Is
+type lookalikeT struct{ s string }
+
+func (l lookalikeT) SafeFormat(x int) string   { return "sf" }
+func (l lookalikeT) SafeMessage(x int) string  { return "sm" }
+func (l lookalikeT) Redact() string            { return "rd" }
+func (l lookalikeT) StripMarkers() string      { return "st" }
+func (l lookalikeT) Unwrap() error             { return errT{"unwrapped"} }
+func (l lookalikeT) Cause() error              { return errT{"cause"} }
+func (l lookalikeT) String() string            { return "look(" + l.s + ")" }
+func (l lookalikeT) GetValue() (string, error) { return "gv", nil }
 
 // idxStrT: the enum-with-name-table idiom; an out-of-range value panics with a runtime error whose text embeds the value
 type idxStrT int
